@@ -171,3 +171,23 @@ def _(self, filter_fn):
         (pos, o) in result._indels, result._indels[pos, o] == self._indels[pos, o]))), label="indel-values")
     # everything else is shared with the receiver (shallow copy)
     shares(result, self, "gene", "profile", "sam", "_cnv_coverage", "_region_coverage")
+
+
+# C06 / C16: what a Coverage object holds after construction
+
+@contract("aldy.coverage.Coverage.__init__", native=False)
+def _(self, gene, profile, sam, coverage, indel_coverage, cnv_coverage):
+    types(gene="Gene", profile="Profile", sam="Optional[Sample]", coverage="Dict[int, Dict[str, List[Tuple[float, float]]]]",
+          indel_coverage="Optional[Dict[Tuple[int, str], Tuple[float, float]]]", cnv_coverage="DefaultDict[int, int, 'int']")
+    # every observation list of the table handed over is the observation list of the object ...
+    ensures(forall(lambda pos=int, op=str: implies(pos in coverage and op in coverage[pos] and op[:3] != "ins",
+                                                   in_pileup(self, pos, op) and self._coverage[pos][op] == coverage[pos][op])),
+            label="non-insertions-kept")
+    # ... including insertions (C16: "k alternate copies add 10k observations to the catalogued variant" - an insertion
+    # parsed from a VCF / reads must keep its support).     KNOWN FINDING F5b: with a non-empty indel table, parsed
+    # insertions are dropped from the pile-up, and table entries without on-target reads are dropped from the table
+    ensures(forall(lambda pos=int, op=str: implies(pos in coverage and op in coverage[pos] and op[:3] == "ins",
+                                                   in_pileup(self, pos, op) or (self._indels is not None and (pos, op) in self._indels))),
+            label="insertions-kept")
+    ensures(forall(lambda pos=int, op=str: implies(in_pileup(self, pos, op), pos in coverage and op in coverage[pos])), label="nothing-invented")
+    modifies(self)
